@@ -216,11 +216,13 @@ func (fr *Frame) execInstr(in ssa.Instruction) bool {
 			if id, ok := x.Expr.(*ast.Ident); ok {
 				if v, ok := fr.vals[x.X]; ok {
 					fr.debugVals[id.Name] = v
+					fr.debugSrc = append(fr.debugSrc, debugBind{id.Name, x.X, x.Block()})
 				}
 			} else if name, ok := fr.e.L.assignedName(fr.fn, x.Expr); ok {
 				// the right-hand side of `name := expr` / `name = expr`
 				if v, ok := fr.vals[x.X]; ok {
 					fr.debugVals[name] = v
+					fr.debugSrc = append(fr.debugSrc, debugBind{name, x.X, x.Block()})
 				}
 			}
 		}
